@@ -124,7 +124,7 @@ def q8_tetrahedral(
             RIJ = snapshot.positions - snapshot.positions[i]
             RIJ = remove_pbc(RIJ, snapshot.hmatrix, ppp)
             distance = np.linalg.norm(RIJ, axis=1)
-            nearests = np.argpartition(distance, num_nearest + 1)[: num_nearest + 1]
+            nearests = np.argpartition(distance, num_nearest)[: num_nearest + 1]
             nearests = [j for j in nearests if j != i]
             for j in range(num_nearest - 1):
                 for k in range(j + 1, num_nearest):
